@@ -33,11 +33,14 @@ pub struct SinkState {
     pub close_calls: usize,
     pub last_ready_pending: bool, // most recent poll_* answer was Pending (=> waker registered)
     pub last_flush_pending: bool,
+    pub ready_ok: bool,           // poll_ready answered Ready(Ok) and no item has been handed over since
+    pub sent_without_ready: bool, // Sink contract broken: a bounded sink would refuse the item
 }
 
 pub const SINK0: SinkState = SinkState {
     log: [0; ML], started: 0, flushed: 0, dead: false, closed: false, calls_after_death: 0,
     ready_calls: 0, flush_calls: 0, send_calls: 0, close_calls: 0, last_ready_pending: false, last_flush_pending: false,
+    ready_ok: false, sent_without_ready: false,
 };
 
 /// fault switches, set by the harness before driving
@@ -107,7 +110,10 @@ impl<const ID: usize> Sink<u8> for ScriptSink<ID> {
         s.ready_calls += 1;
         s.last_ready_pending = false;
         match any_outcome() {
-            Outcome::Ready => Poll::Ready(Ok(())),
+            Outcome::Ready => {
+                s.ready_ok = true;
+                Poll::Ready(Ok(()))
+            }
             Outcome::Pending => {
                 s.last_ready_pending = true;
                 Poll::Pending
@@ -122,6 +128,10 @@ impl<const ID: usize> Sink<u8> for ScriptSink<ID> {
     fn start_send(self: Pin<&mut Self>, item: u8) -> Result<(), MockErr> {
         let s = self.touch();
         s.send_calls += 1;
+        if !s.ready_ok {
+            s.sent_without_ready = true;
+        }
+        s.ready_ok = false;
         let fail: bool = kani::any();
         if fail && unsafe { ALLOW_ERR } {
             s.dead = true;
@@ -263,6 +273,10 @@ impl<const ID: usize> Sink<Frame> for FrameSink<ID> {
             s.calls_after_death += 1;
         }
         s.send_calls += 1;
+        if !s.ready_ok {
+            s.sent_without_ready = true;
+        }
+        s.ready_ok = false;
         let fail: bool = kani::any();
         if fail && unsafe { ALLOW_ERR } {
             s.dead = true;
